@@ -15,6 +15,20 @@ PickTok == Pick(1..(IF nextTok > 1 THEN nextTok - 1 ELSE 1))
 SimStep ==
   \/ \E s \in Pick(Sessions), m \in Pick(Msgs), at \in Pick({0, IF clock > 1 THEN clock - 1 ELSE 0}) : Bind(s, m, at)
   \/ \E s \in Pick(Sessions), m \in Pick(Msgs) : Bind(s, m, 0)
+  \* aimed: pile another overlapping attempt onto a key that already has in-flight attempts
+  \/ \E k \in Pick({k \in Keys : entries[k].att # {}} \cup {<<"none", 0>>}) :
+        k[1] # "none" /\ \E at \in Pick({0, IF clock > 1 THEN clock - 1 ELSE 0}) : Bind(k[1], k[2], at)
+  \/ \E k \in Pick({k \in Keys : Cardinality(entries[k].att) >= 2} \cup {<<"none", 0>>}) :
+        k[1] # "none" /\ Bind(k[1], k[2], 0)
+  \* aimed: roll back / finish the OLDEST attempt of a key with several overlapping attempts
+  \/ \E k \in Pick({k \in Keys : Cardinality(entries[k].att) >= 2} \cup {<<"none", 0>>}) :
+        k[1] # "none" /\ LET oldest == CHOOSE a \in entries[k].att : \A b \in entries[k].att : a[1] <= b[1]
+                        IN Cancel(k[1], k[2], oldest[1])
+  \/ \E k \in Pick({k \in Keys : Cardinality(entries[k].att) >= 3} \cup {<<"none", 0>>}) :
+        k[1] # "none" /\ \E a \in Pick(entries[k].att) : Cancel(k[1], k[2], a[1])
+  \/ \E k \in Pick({k \in Keys : Cardinality(entries[k].att) >= 2} \cup {<<"none", 0>>}) :
+        k[1] # "none" /\ LET oldest == CHOOSE a \in entries[k].att : \A b \in entries[k].att : a[1] <= b[1]
+                        IN Finish(k[1], k[2], oldest[1])
   \/ \E s1 \in Pick(Sessions), m1 \in Pick(Msgs), s2 \in Pick(Sessions), m2 \in Pick(Msgs) : BindBatch(s1, m1, s2, m2)
   \/ \E s \in Pick(Sessions), m \in Pick(Msgs), t \in PickTok : Finish(s, m, t)
   \/ \E k \in Pick({k \in Keys : entries[k].att # {}} \cup {<<"none", 0>>}) :
